@@ -276,18 +276,26 @@ def scanCAS (q : QIter) (ndests : Nat) : Option (Bool × List Call × QErr) :=
         if c0.dest == 0 && !isBoolean c0.typ then some (false, [], .iter .scan)
         else some (decBool c0.data, more.map (fun c => { c with dest := c.dest - 1 }), closeErr q')
 
+/-- is the LAST plain column called `[applied]` boolean (`dest["[applied]"]` then holds a Go bool)? -/
+def appliedIsBool (cols : List ColumnInfo) : Bool :=
+  match (cols.filter (fun c => c.name == [0x5B, 0x61, 0x70, 0x70, 0x6C, 0x69, 0x65, 0x64, 0x5D])).getLast? with
+  | some c => isBoolean c.typ
+  | none => false
+
 /-- Query.MapScanCAS(map) with an empty map, columns of boolean / blob / ascii / text / varchar type (the typed value
-    is the cell's bytes): `iter.MapScan(dest)`, then `dest["[applied]"].(bool)` — a PANIC when MapScan returned false
-    (nothing was stored) or when no column is called `[applied]` -/
+    is the cell's bytes), AFTER the repair of KF-C04-8: `iter.MapScan(dest)`, then `applied, ok := dest["[applied]"].(bool)`;
+    when MapScan returned false (nothing stored) or the result has no boolean `[applied]` column: (false, iter.Close()'s
+    error, or "no boolean [applied] column" when there is none), the map as MapScan left it. A panic (`none`) only
+    where Iter.MapScan itself panics. -/
 def mapScanCAS (q : QIter) : Option (Bool × List (Bytes × Bytes) × QErr) :=
   if q.it.failed then some (false, [], closeErr q)
   else if q.it.numRows == 0 then some (false, [], .notFound)
   else match mapScan q.it with
     | .crash => none
-    | .stop _ => none                                  -- dest["[applied]"] is nil: interface conversion panics
+    | .stop _ => some (false, [], .iter .scan)
     | .row _ m =>
-      match m.lookup [0x5B, 0x61, 0x70, 0x70, 0x6C, 0x69, 0x65, 0x64, 0x5D] with
-      | none => none                                   -- the same panic
-      | some v => some (decBool v, (m.filter (fun kv => kv.1 != [0x5B, 0x61, 0x70, 0x70, 0x6C, 0x69, 0x65, 0x64, 0x5D])).map (fun kv => (kv.1, kv.2.getD [])), closeErr q)
+      match m.lookup [0x5B, 0x61, 0x70, 0x70, 0x6C, 0x69, 0x65, 0x64, 0x5D], appliedIsBool q.it.md.columns with
+      | some v, true => some (decBool v, (m.filter (fun kv => kv.1 != [0x5B, 0x61, 0x70, 0x70, 0x6C, 0x69, 0x65, 0x64, 0x5D])).map (fun kv => (kv.1, kv.2.getD [])), closeErr q)
+      | _, _ => some (false, m.map (fun kv => (kv.1, kv.2.getD [])), .iter .scan)
 
 end Paged
